@@ -14,3 +14,4 @@ import SkModel.Proofs.SeqCore
 import SkModel.Theorems.C03
 import SkModel.Proofs.StoreInv
 import SkModel.Theorems.C15
+import SkModel.Spec.Gate
